@@ -51,7 +51,7 @@ from contextlib import contextmanager
 from pathlib import Path
 from typing import TYPE_CHECKING, Any
 
-from .errors import CommitError, HookError
+from .errors import CommitError, HookError, NotTreeError
 from .objects import Blob, Commit, ObjectID, Tag, Tree
 
 if TYPE_CHECKING:
@@ -440,6 +440,14 @@ class WorkTree:
                     blob = blob_from_path_and_stat(full_path, st)
                     blob = blob_normalizer.checkin_normalize(blob, fs_path)
                     self._repo.object_store.add_object(blob)
+                    # a file that used to be where a leading directory of
+                    # this path now is cannot stay in the index with it
+                    parts = tree_path.split(b"/")
+                    for i in range(1, len(parts)):
+                        try:
+                            del index[b"/".join(parts[:i])]
+                        except KeyError:
+                            pass
                     index[tree_path] = index_entry_from_stat(st, blob.id)
         index.write()
 
@@ -482,9 +490,10 @@ class WorkTree:
                 tree_entry = tree.lookup_path(
                     self._repo.object_store.__getitem__, tree_path
                 )
-            except KeyError:
-                # if tree_entry didn't exist, this file was being added, so
-                # remove index entry
+            except (KeyError, NotTreeError):
+                # if tree_entry didn't exist (also: a leading component is a
+                # file in HEAD), this file was being added, so remove index
+                # entry
                 try:
                     del index[tree_path]
                     continue
